@@ -84,6 +84,49 @@ def verify(src, name):
         rmwt(wt)
 
 
+def apply_patch(wt, patch):
+    """git apply; fall back to a 3-way merge and to patch(1) with fuzz when /repo has moved on since the seed was made"""
+    rc, out = sh(["git", "apply", patch], cwd=wt)
+    if rc == 0:
+        return True, "git apply"
+    rc, out2 = sh(["git", "apply", "--3way", patch], cwd=wt)
+    if rc == 0:
+        sh(["git", "reset", "-q"], cwd=wt)
+        return True, "git apply --3way"
+    sh(["git", "checkout", "-q", "--", "."], cwd=wt)
+    rc, out3 = sh("patch -p1 -F3 --no-backup-if-mismatch < %s" % patch, cwd=wt)
+    if rc == 0:
+        return True, "patch -F3"
+    sh(["git", "checkout", "-q", "--", "."], cwd=wt)
+    return False, out + out3
+
+
+def refresh(name):
+    """re-base seeded/<name>/patch.diff onto /repo HEAD if it no longer applies verbatim, then re-confirm it"""
+    d = os.path.join(SEEDED, name)
+    wt = mkwt("rf-" + name)
+    try:
+        rc, out = sh(["git", "apply", "--check", os.path.join(d, "patch.diff")], cwd=wt)
+        if rc == 0:
+            return "applies"
+        ok, how = apply_patch(wt, os.path.join(d, "patch.diff"))
+        if not ok:
+            return "CANNOT REBASE: " + how[-300:]
+        rc, diff = sh(["git", "diff"], cwd=wt)
+        tmp = "/tmp/seed-refresh-" + name
+        shutil.rmtree(tmp, ignore_errors=True)
+        os.makedirs(tmp)
+        open(os.path.join(tmp, "patch.diff"), "w").write(diff)
+        shutil.copy(os.path.join(d, "demo.rs"), tmp)
+        shutil.copy(os.path.join(d, "meta.json"), tmp)
+    finally:
+        rmwt(wt)
+    if not os.path.exists(os.path.join(d, "patch.orig.diff")):
+        shutil.copy(os.path.join(d, "patch.diff"), os.path.join(d, "patch.orig.diff"))
+    ok, ran = verify(tmp, name)
+    return ("rebased via %s and re-confirmed" % how) if ok else ("rebased via %s but NOT confirmed: %s" % (how, ran))
+
+
 def run(name, props, tier):
     d = os.path.join(SEEDED, name)
     meta = json.load(open(os.path.join(d, "meta.json")))
@@ -91,8 +134,8 @@ def run(name, props, tier):
     wt = mkwt("run-" + name)
     res = {}
     try:
-        rc, out = sh(["git", "apply", os.path.join(d, "patch.diff")], cwd=wt)
-        assert rc == 0, out
+        ok, how = apply_patch(wt, os.path.join(d, "patch.diff"))
+        assert ok, how
         for p in props:
             t0 = time.time()
             env = {"KV_REPO": wt}
@@ -132,6 +175,11 @@ def main():
     if a[0] == "run":
         res = run(a[1], a[2:], tier)
         print(json.dumps(res, indent=1))
+        return 0
+    if a[0] == "refresh":
+        names = a[1:] or sorted(n for n in os.listdir(SEEDED) if os.path.isdir(os.path.join(SEEDED, n)))
+        for n in names:
+            print(n, refresh(n))
         return 0
     if a[0] == "matrix":
         names = sorted(n for n in os.listdir(SEEDED) if os.path.isdir(os.path.join(SEEDED, n)))
